@@ -25,6 +25,10 @@ CTX = [
     ("array-of-array", lambda x: ("array", ("array", x))),
     ("array-of-map-of-array", lambda x: ("array", ("hmap", rg.P("String"), ("array", x)))),
     ("Vec-of-array", lambda x: ("vec", ("array", x))),
+    # the dependency written through a path, and below a container written through its std path
+    ("path-qualified", lambda x: ("raw", "crate::models::%s" % rg.rust(x))),
+    ("std-qualified-map", lambda x: ("raw", "std::collections::HashMap<String, %s>" % rg.rust(x))),
+    ("path-qualified-in-Vec", lambda x: ("raw", "Vec<self::app_models::%s>" % rg.rust(x))),
     ("Option-Rc", lambda x: ("raw", "Option<Rc<%s>>" % rg.rust(x))),
 ]
 
